@@ -141,7 +141,7 @@ def gen_case(rng: random.Random, tier: str) -> dict:
     ren = {"style": rng.choice(["none", "none", "fresh", "chain", "swap", "out", "mixed", "out_chain", "rename_then_swap", "out_reuse", "in_reuse"]), "seed": rng.randrange(1 << 30)}
     if rng.random() < 0.3:
         gen.add_falsy_consts(rng, g, 0.2)  # outputs whose VALUE is None / 0 / "" / []: produced, not missing (also across an inner select)
-    return {"nested_edges": rng.choice([False, False, False, True, "split"]), "graph": g, "inputs": inp, "cuts": cuts, "rename": ren, "inner_select": rng.random() < 0.25, "bind_inner": rng.random() < 0.7,
+    return {"siblings": rng.random() < 0.3, "nested_edges": rng.choice([False, False, False, True, "split"]), "graph": g, "inputs": inp, "cuts": cuts, "rename": ren, "inner_select": rng.random() < 0.25, "bind_inner": rng.random() < 0.7,
             "touch": rng.choice([[], [], ["spec"], ["graph"], ["spec", "graph"]]), "bind_conflict": rng.random() < 0.3, "async": [gen.gen_async_cfg(rng, allow_hold=True) for _ in range(2)]}
 
 
@@ -296,6 +296,8 @@ def run_case(doc: dict) -> dict:
     try:
         nspec, rho, info, outer_bind = build_nested(doc)
         _strip(nspec)
+        if doc.get("siblings"):
+            nspec = gen.with_api(nspec, {"siblings": True})  # decoy graphs / wrapper variants derived from the same objects
         if doc.get("nested_edges"):
             # the NESTED variant spells its topology out with explicit edges= (one declaration per pair, or one per value: after
             # wrapping, several values travel between the same two nodes); the flat variant keeps name inference
